@@ -1,6 +1,7 @@
 import Drivers.RegWorld
 import Spine.RegData
 import Spine.RegWire
+import Spine.RegEvents
 open Spine.Reg
 /-! Line protocol for the registry family (C08, C09, C10). One op per line, one answer per line.
     `cfg a b c d` (0/1 each) selects the member: delSubByDevice delBindByDevice unbindDisjunct dropBindsAnyPeer. -/
@@ -124,40 +125,59 @@ def dataOp (br : List Nat) (s : St) (store : List (RegData.FKey × Nat)) (val : 
         | .applied => toString (ns.map showNote) ++ " data=" ++ showData d'.store se sf)
     | _ => none
   | _ => none
+/-- the subscription-change events of a subscribe / unsubscribe call, "+p:ce/cf->se/sf" / "-…" -/
+def showKey (k : Spine.RegEv.Key) : String := s!"{k.1}:{showEnt k.2.1}/{k.2.2.1}->{showEnt k.2.2.2.1}/{k.2.2.2.2}"
+def showEv : Spine.RegEv.Ev → String
+  | .add k => "+" ++ showKey k
+  | .remove k => "-" ++ showKey k
+def callEv (cfg : Cfg) (s : St) (ws : List String) : String :=
+  let op : Option Op := match ws with
+    | ["sub", p, ce, cf, se, sf, t] => (nats [p, cf, sf, t]).bind fun
+      | [p, cf, sf, t] => some (.sub p (parseEnt ce) cf (parseEnt se) sf t) | _ => none
+    | ["unsub", p, cd, ce, cf, se, sf] => (nats [p, cd, cf, sf]).bind fun
+      | [p, cd, cf, sf] => some (.unsub p cd (parseEnt ce) cf (parseEnt se) sf) | _ => none
+    | _ => none
+  match op with
+  | some op => toString ((Spine.RegEv.callEvents cfg s op).map showEv)
+  | none => "[]"
 /-- `save` / `restore`: one slot for the state, so that the harness can ask for both orders of two operations -/
 partial def loop (h : IO.FS.Stream) (out : IO.FS.Stream) (cfg : Cfg) (br : List Nat) (s saved : St)
-    (store savedStore : List (Spine.RegData.FKey × Nat)) (val : Nat) (rich : Bool) : IO Unit := do
+    (store savedStore : List (Spine.RegData.FKey × Nat)) (val : Nat) (rich : Bool) (ev : String) : IO Unit := do
   let line ← h.getLine
   if line.isEmpty then out.flush; return ()
   let ws := stripDecor ((line.trimAscii.toString.splitOn " ").filter (· ≠ ""))
   if ws == ["save"] then
     out.putStrLn "saved"; out.flush
-    loop h out cfg br s s store store val rich
+    loop h out cfg br s s store store val rich ev
   else if ws == ["restore"] then
     out.putStrLn "restored"; out.flush
-    loop h out cfg br saved saved savedStore savedStore val rich
+    loop h out cfg br saved saved savedStore savedStore val rich ev
   else if ws == ["reset"] then
     out.putStrLn "reset"; out.flush
-    loop h out cfg [] init saved initStore savedStore 0 rich
+    loop h out cfg [] init saved initStore savedStore 0 rich ev
+  else if ws == ["events"] then
+    -- the subscription-change events of the last registry call (Spine.RegEv.callEvents)
+    out.putStrLn ev; out.flush
+    loop h out cfg br s saved store savedStore val rich ev
   else if ws == ["rich"] then
     -- from here on data ops answer with the payload of every notification and the store after the op
     out.putStrLn "rich"; out.flush
-    loop h out cfg br s saved store savedStore val true
+    loop h out cfg br s saved store savedStore val true ev
   else match ws with
     -- `broken k`: the connection of peer k cannot be written to (every send to it fails)
     | ["broken", k] =>
       out.putStrLn "done"; out.flush
-      loop h out cfg ((k.toNat?.getD 0) :: br) s saved store savedStore val rich
+      loop h out cfg ((k.toNat?.getD 0) :: br) s saved store savedStore val rich ev
     | _ =>
       match (if rich then dataOp br s store (val + 1) ws else none) with
       | some (store', ans) =>
         out.putStrLn ans; out.flush
-        loop h out cfg br s saved store' savedStore (val + 1) rich
+        loop h out cfg br s saved store' savedStore (val + 1) rich ev
       | none =>
         let isData := match ws with
           | "notify" :: _ => true | "update" :: _ => true | "write" :: _ => true | _ => false
         let (cfg', s', ans) := answer cfg br s ws
         out.putStrLn ans
         out.flush
-        loop h out cfg' br s' saved store savedStore (if isData then val + 1 else val) rich
-def main : IO Unit := do loop (← IO.getStdin) (← IO.getStdout) {} [] init init initStore initStore 0 false
+        loop h out cfg' br s' saved store savedStore (if isData then val + 1 else val) rich (callEv cfg s ws)
+def main : IO Unit := do loop (← IO.getStdin) (← IO.getStdout) {} [] init init initStore initStore 0 false "[]"
